@@ -1362,7 +1362,9 @@ impl<Word, Buf> Cursor<Word, Buf> {
         Buf: AsMut<[Word]>,
     {
         self.buf.as_mut().reverse();
-        self.pos = self.buf.as_mut().len() - self.pos;
+        // `saturating_sub` because safe code can shrink an owned buffer below `pos` via
+        // `Cursor::buf_mut`.
+        self.pos = self.buf.as_mut().len().saturating_sub(self.pos);
         Reverse(self)
     }
 }
